@@ -5,6 +5,7 @@
   theorems below each carry one clause of the property for all inputs.
 -/
 import Djc.Proofs.Render
+import Djc.Proofs.Plain
 import Djc.Spec.Render
 namespace Djc.Props.C01
 open Djc.Tpl Djc.Render Djc.Proofs.Render
@@ -108,6 +109,38 @@ theorem slot_checks_pass (isDefault isDyn : Bool) (slotName : Str) (fills : List
     ∃ r, slotChecks isDefault isDyn none slotName fills = .ok (chooseFillName isDefault slotName fills, r) := by
   unfold slotChecks
   rcases h with h | h | h <;> cases isDefault <;> cases isDyn <;> simp_all
+
+/-- **The whole pipeline on the plain fragment** (the part of `C01_full` that is proved, for every fuel, page,
+context, world and state): a page built from text, `{{ }}`, `{% if %}`, `{% for %}`, `{% with %}` and elements only,
+rendered in a context that holds no slot reference, gives under the model of the code *exactly* the tokens — or
+exactly the error — it gives under the reading of the property, and both count the same steps.  Slots, fills and
+components are what the remaining (open) part of the refinement is about. -/
+theorem C01_full_partial_plain_fragment (env : Env) (fuel : Nat) (page : List Node) (ctx : Ctx)
+    (e : Djc.SpecRender.SEnv) (w : World) (s : Djc.SpecRender.SState)
+    (hp : Djc.Proofs.Plain.plainL page = true) (hc : Djc.Proofs.Plain.ctxFree ctx = true)
+    (he : e.vars = ctx) (hs : s.steps = w.steps) :
+    match (renderNodes env fuel page ctx).run.run w with
+    | (.ok toks, w') => (Djc.SpecRender.sNodes env fuel page e).run s = .ok (toks, { s with steps := w'.steps })
+    | (.error err, _) => (Djc.SpecRender.sNodes env fuel page e).run s = .error err := by
+  subst he
+  rw [(Djc.Proofs.Plain.model_plain env fuel).1 page e.vars w hp hc,
+      (Djc.Proofs.Plain.spec_plain env fuel).1 page e s hp hc, hs]
+  rcases Djc.Proofs.Plain.pNodes env.maxSteps fuel page e.vars w.steps with ⟨r, st⟩
+  cases r <;> rfl
+
+/-- the hypotheses are satisfiable and the statement is not about empty pages: a page with a loop, a branch, an
+element and a lookup, in a context with a list -/
+example :
+    Djc.Proofs.Plain.plainL [.forn "x".toList (.var ["xs".toList]) [.elem "p".toList [.out (.var ["x".toList])]],
+      .ifn (.var ["a".toList]) [.text "T".toList] [.text "F".toList]] = true ∧
+    Djc.Proofs.Plain.ctxFree [[("xs".toList, .list [.str "1".toList, .str "2".toList]), ("a".toList, .bool true)]] = true ∧
+    (match ((renderNodes { isolated := true, lib := [] } 10 [.forn "x".toList (.var ["xs".toList]) [.elem "p".toList [.out (.var ["x".toList])]],
+      .ifn (.var ["a".toList]) [.text "T".toList] [.text "F".toList]]
+      [[("xs".toList, .list [.str "1".toList, .str "2".toList]), ("a".toList, .bool true)]]).run.run {}).1 with
+      | .ok toks => toks == [.opn "p".toList [], .text "1".toList, .cls "p".toList, .opn "p".toList [], .text "2".toList,
+                             .cls "p".toList, .text "T".toList]
+      | .error _ => false) = true := by
+  refine ⟨by decide, by decide, by decide +kernel⟩
 
 /-- The property at full strength, as a statement about the two interpreters: whenever neither
 runs out of fuel, the model of the code and the property's reading produce the same tokens up to
